@@ -37,6 +37,17 @@ def _is_bool_array_index(index):
     return len(index) == 1 and np.issubdtype(np.asarray(index[0]).dtype, np.bool_)
 
 
+def _as_index_tuple(index):
+    """Returns `index` as a tuple.
+
+    A tensor that is used as an index can be updated in-place before back-propagation
+    takes place: the operation holds on to the values that it was called with."""
+    from mygrad.tensor_base import Tensor
+
+    index = index if isinstance(index, tuple) else (index,)
+    return tuple(ind.data.copy() if isinstance(ind, Tensor) else ind for ind in index)
+
+
 class GetItem(Operation):
     """Defines the __getitem__ interface for a Tensor, supporting back-propagation
 
@@ -63,7 +74,7 @@ class GetItem(Operation):
         numpy.ndarray
             The array returned by the get-item operation"""
         self.variables = (a,)
-        self.index = index if isinstance(index, tuple) else (index,)
+        self.index = _as_index_tuple(index)
         out = a.data[index]
 
         self._used_distinct_indices = (
@@ -142,7 +153,7 @@ class SetItem(Operation):
         in which a single element is set multiple times."""
 
         self.variables = (a, b)
-        self.index = index if isinstance(index, tuple) else (index,)
+        self.index = _as_index_tuple(index)
         out[index] = b.data
         return out
 
